@@ -1,6 +1,7 @@
 package main
 
 import (
+	"sort"
 	"bytes"
 	crand "crypto/rand"
 	stdx509 "crypto/x509"
@@ -417,6 +418,46 @@ func init() {
 					}
 				}
 			}
+		}
+		// every listed name can be given to -includeNames / -excludeNames and selects (removes) exactly that lint: the listing
+		// printed under the selection is compared with the library's filter.  All names with a character outside [a-z0-9_],
+		// every third of the others in quick
+		{
+			listNames := func(argv ...string) ([]string, cliRun) {
+				r := runCLI(bin, append(argv, "-list-lints-json"), nil)
+				var ns []string
+				for _, ln := range strings.Split(strings.TrimSpace(r.stdout), "\n") {
+					var m struct {
+						Name string `json:"name"`
+					}
+					if json.Unmarshal([]byte(ln), &m) == nil && m.Name != "" {
+						ns = append(ns, m.Name)
+					}
+				}
+				sort.Strings(ns)
+				return ns, r
+			}
+			plain := regexp.MustCompile("^[a-z0-9_]+$")
+			probes := 0
+			for i, n := range names {
+				if plain.MatchString(n) && i%3 != 0 && tier() != "thorough" {
+					continue
+				}
+				probes++
+				got, r := listNames("-includeNames", n)
+				invocations++
+				if r.code != 0 || len(got) != 1 || got[0] != n {
+					out.Violate("C15|cli-include-name:"+n, fmt.Sprintf("zlint -includeNames %s -list-lints-json (exit %d, stderr %.120q) lists %d lints %v; the library's filter selects exactly that lint", n, r.code, strings.TrimSpace(r.stderr), len(got), got[:minInt(3, len(got))]),
+						map[string]interface{}{"flag": "-includeNames", "name": n}, []string{n}, got[:minInt(3, len(got))])
+				}
+				got, r = listNames("-excludeNames", n)
+				invocations++
+				if r.code != 0 || len(got) != len(names)-1 || contains(got, n) {
+					out.Violate("C15|cli-exclude-name:"+n, fmt.Sprintf("zlint -excludeNames %s -list-lints-json (exit %d, stderr %.120q) lists %d lints; the library's filter keeps %d", n, r.code, strings.TrimSpace(r.stderr), len(got), len(names)-1),
+						map[string]interface{}{"flag": "-excludeNames", "name": n}, len(names)-1, len(got))
+				}
+			}
+			out.Stats["cli_single_name_selections"] = probes
 		}
 		// size ladder: objects of tens of kilobytes up to several megabytes (a revocation list of a large CA, a certificate
 		// carrying a large extension) in every encoding, from a file and from standard input
